@@ -83,6 +83,7 @@ def excName : Exc → String
   | .notImplementedError => "NotImplementedError"
   | .runtimeError => "RuntimeError"
   | .noSuchProcess => "NoSuchProcess"
+  | .zeroDivisionError => "ZeroDivisionError"
 
 def jRes (f : α → Json) : Res α → Json
   | .ok v => jObj [("ok", f v)]
@@ -120,7 +121,8 @@ def parseDevEntry (j : Json) : R (Bytes × Spec.NodeKind) :=
     let rdev ← asNat r
     if kind == "vanished" then pure (path, Spec.NodeKind.vanished)
     else if kind == "chr" then pure (path, Spec.NodeKind.chr rdev)
-    else if kind == "other" then pure (path, Spec.NodeKind.other rdev)
+    -- anything that is not a character device: regular file ("other"/"reg"), directory, block device, fifo, socket
+    else if ["other", "reg", "dir", "blk", "fifo", "sock"].contains kind then pure (path, Spec.NodeKind.other rdev)
     else .error s!"unknown node kind {kind}"
   | _ => .error "dev entry must be [hexpath, kind, rdev]"
 
@@ -150,6 +152,10 @@ def recOrRaw (parse : Json → R α) (j : Json) : R (Sum α Bytes) :=
   | .ok r => (parse r).map Sum.inl
   | .error _ => (bytesF j "raw").map Sum.inr
 
+/-- `{"dir": hex|null, "base": hex, "rest": [hex…]}`: argv[0] as a path + the other arguments -/
+def parseCmdline (j : Json) : R (Spec.ExePath × List Bytes) := do
+  pure ({ dir := ← optF asBytes j "dir", base := ← bytesF j "base" }, ← listF asBytes j "rest")
+
 def handleProc (j : Json) : R Json := do
   let tck ← natF j "tck"
   let btime ← natF j "btime"
@@ -176,6 +182,11 @@ def handleProc (j : Json) : R Json := do
   let procstat2 ← optF parseProcStatW j "procstat2"
   let listing ← optF (asList asNat) j "listing"
   let alive := (← optF asBool j "alive").getD true
+  let cmdline ← optF parseCmdline j "cmdline"
+  let arg0 : Option Spec.ExePath := cmdline.map (·.1)
+  let cmdlineBytes : Bytes := match cmdline with
+    | some (p, rest) => Spec.renderCmdline (p.render :: rest)
+    | none => []
   -- files
   let statBytes := match stat with | .inl r => Spec.renderStat r | .inr b => b
   let statusBytes := status.map fun s => match s with | .inl r => Spec.renderStatus r | .inr b => b
@@ -183,11 +194,14 @@ def handleProc (j : Json) : R Json := do
     (tid, match t with | .inl r => Spec.renderStat r | .inr b => b)
   let files := jObj [("stat", jBytes statBytes), ("status", jOpt jBytes statusBytes),
     ("threads", jList (fun (p : Nat × Bytes) => Json.arr #[jNat p.1, jBytes p.2]) thrFiles),
+    ("cmdline", jBytes cmdlineBytes),
     ("procstat", jOpt jBytes (procstat.map Spec.renderProcStat)),
     ("procstat2", jOpt jBytes (procstat2.map Spec.renderProcStat))]
   -- model
   let mStat : List (String × Json) := [
-    ("name", jRes jBytes (name cfg statBytes)),
+    -- the PUBLIC name(): platform name + the cmdline rule of psutil/__init__.py; `proc_name` = the platform method
+    ("name", jRes jBytes ((name cfg statBytes).map fun n => publicName xcfg n (arg0.map Spec.ExePath.render))),
+    ("proc_name", jRes jBytes (name cfg statBytes)),
     ("ppid", jRes jInt (ppid cfg statBytes)),
     ("status", jRes jStatusOut (C06.status cfg statBytes)),
     ("cpu_times", jRes jCpu (cpuTimes cfg tck statBytes)),
@@ -207,7 +221,10 @@ def handleProc (j : Json) : R Json := do
     ++ (match procstat, procstat2 with
       | some w, some w2 =>
         let c1 := (createTimeCall cfg xcfg tck none (Spec.renderProcStat w) statBytes).2
-        [("create_time_pinned", jRes jRat (createTimeCall cfg xcfg tck c1 (Spec.renderProcStat w2) statBytes).1)]
+        let r2 := createTimeCall cfg xcfg tck c1 (Spec.renderProcStat w2) statBytes
+        [("create_time_pinned", jRes jRat r2.1),
+         -- the public boot_time() afterwards: re-reads /proc/stat whatever is pinned
+         ("boot_time_now", jRes jRat (bootTimeCall xcfg r2.2 (Spec.renderProcStat w2)).1)]
       | _, _ => [])
     ++ (match dev, dev2 with
       | some l, some l2 =>
@@ -224,20 +241,25 @@ def handleProc (j : Json) : R Json := do
   let sStat : List (String × Json) := match stat with
     | .inl r =>
       if Spec.isLetter r.state then [
-        ("name", jOk (jBytes (Spec.name r))),
+        ("proc_name", jOk (jBytes (Spec.name r))),
         ("ppid", jOk (jInt (Spec.ppid r))),
         ("status", jOk (Json.str (Spec.status r))),
         ("cpu_times", jOk (jCpuV (Spec.cpuTimes tck r))),
         ("cpu_num", jOk (jInt (Spec.cpuNum r)))]
+        ++ (match arg0 with
+          | some p => if p.base.contains 47 then [] else [("name", jOk (jBytes (Spec.publicName r.comm arg0)))]
+          | none => [("name", jOk (jBytes (Spec.publicName r.comm none)))])
         ++ (match procstat with
           | some w => if wfProcStatB w then [("create_time", jOk (jRat (Spec.createTime tck (w.btime : Rat) r)))]
               -- two calls in one interpreter (C06_create_time_two_calls): the btime of the FIRST call,
               -- unless that was 0 (falsy pin): then the btime published at the second call
               ++ (match procstat2 with
                   | some w2 =>
-                    if w.btime != 0 then [("create_time_pinned", jOk (jRat (Spec.createTime tck (w.btime : Rat) r)))]
+                    (if w.btime != 0 then [("create_time_pinned", jOk (jRat (Spec.createTime tck (w.btime : Rat) r)))]
                     else if wfProcStatB w2 then [("create_time_pinned", jOk (jRat (Spec.createTime tck (w2.btime : Rat) r)))]
-                    else []
+                    else [])
+                    -- C06_time_call_history: boot_time() returns the btime published at its own moment
+                    ++ (if wfProcStatB w2 then [("boot_time_now", jOk (jRat (w2.btime : Rat)))] else [])
                   | none => [])
             else []
           | none => [("create_time", jOk (jRat (Spec.createTime tck (btime : Rat) r)))])
